@@ -4,8 +4,11 @@ import Lox.Table.Drv
 import Lox.LR.Drv
 import Lox.LR.DrvDesugar
 import Lox.LR.DrvRecovery
+import Lox.LR.DrvJustify
+import Lox.LR.DrvGenModel
 import Lox.Lex.Drv
 import Lox.Lex.DrvRuntime
+import Lox.Lex.DrvGen
 import Lox.Dec.Drv
 import Lox.Dec.DrvTerminals
 import Lox.Dec.DrvAssign
@@ -23,8 +26,8 @@ def dispatch (line : String) : String :=
   let r := match area with
     | "rang3" => Lox.Rang3.handle op payload
     | "table" => Lox.Table.handle op payload
-    | "lr" => ((Lox.LR.handle op payload).orElse fun _ => Lox.LR.handleDesugar op payload).orElse fun _ => Lox.LR.Rt.handleRecovery op payload
-    | "lex" => (Lox.Lex.handle op payload).orElse fun _ => Lox.Lex.Rt.handleRuntime op payload
+    | "lr" => ((((Lox.LR.handle op payload).orElse fun _ => Lox.LR.handleDesugar op payload).orElse fun _ => Lox.LR.Rt.handleRecovery op payload).orElse fun _ => Lox.LR.handleJustify op payload).orElse fun _ => Lox.LR.Gen.handleGenModel op payload
+    | "lex" => ((Lox.Lex.handle op payload).orElse fun _ => Lox.Lex.Rt.handleRuntime op payload).orElse fun _ => Lox.Lex.Gen.handleGen op payload
     | "dec" => ((((Lox.Dec.handle op payload).orElse fun _ => Lox.Dec.Terminals.handleTerminals op payload).orElse fun _ => Lox.Dec.Assign.handleAssign op payload).orElse fun _ => Lox.Dec.Analyze.handleAnalyze op payload).orElse fun _ => Lox.Dec.FrontText.handleFrontText op payload
     | _ => none
   r.getD "bad-op"
